@@ -59,7 +59,7 @@ def sibling_bytes(case, rng):
         return None
 
 
-def impl_roundtrip(case, pose=None, layout="C", sibling=None):
+def impl_roundtrip(case, pose=None, layout="C", sibling=None, edit_then_reread=False):
     """(write result, read-back result) on the implementation; results are ('ok', value) or ('error', type name).
     `layout`: memory layout of the body arrays handed to the writer; `sibling`: bytes of a near-identical file read first, without clearing the header cache in between"""
     from pose_format import Pose
@@ -81,9 +81,25 @@ def impl_roundtrip(case, pose=None, layout="C", sibling=None):
         except Exception:
             PoseHeaderCache.clear_cache()
     try:
-        back = pc.canon_pose(Pose.read(raw))
+        got = Pose.read(raw)
+        back = pc.canon_pose(got)
     except Exception as e:
         return ("ok", raw), ("error", type(e).__name__)
+    if edit_then_reread:
+        # the written bytes decode to the same pose every time — also right after the pose just read was edited in place (dimensions, names, limbs)
+        try:
+            got.header.dimensions.width = (got.header.dimensions.width + 5) % 65536
+            for comp in got.header.components:
+                comp.name = comp.name + "_edited"
+                if comp.points:
+                    comp.points[0] = comp.points[0] + "_edited"
+                if len(comp.limbs):
+                    comp.limbs[0] = (0, 0)
+            again = pc.canon_pose(Pose.read(raw))
+        except Exception as e:
+            return ("ok", raw), ("error", "reread:" + type(e).__name__)
+        if pc.diff(back, again):
+            return ("ok", raw), ("ok", again)          # reported against the expected read-back by the caller
     return ("ok", raw), ("ok", back)
 
 
@@ -133,7 +149,9 @@ def run(ctx):
         layout = "C" if tag == "boundary" else rng.choice(["C", "C", "F", "T", "R", "S"])
         sibling = sibling_bytes(case, rng) if (tag == "generated" and pc.representable(case) and rng.random() < 0.3) else None
         ctx.count("layout:" + layout); ctx.count("history:" + ("sibling file read first" if sibling else "cold cache"))
-        w, r = impl_roundtrip(case, layout=layout, sibling=sibling)
+        edit = rng.random() < 0.3
+        ctx.count("re-read after editing the pose just read" if edit else "single read-back")
+        w, r = impl_roundtrip(case, layout=layout, sibling=sibling, edit_then_reread=edit)
         results.append((w, r))
     # model
     reqs = [{"op": "write", "pose": case} for case, _ in cases]
